@@ -108,12 +108,21 @@ def monitor_c11(rng: random.Random, tier: str) -> tuple[list, int]:
                 kw["initial_data"] = {sa: 5}
             with warnings.catch_warnings():
                 warnings.simplefilter("ignore")
+                other = None
                 try:
                     w.connect(ents[a], ents[b], (sa, da), **kw)
                     rejected = False
                 except ScenarioError:
                     rejected = True
+                except Exception as e:  # noqa: BLE001
+                    rejected = False
+                    other = type(e).__name__
             cl = common_len(P[a], P[b])
+            if other:
+                vio.append({"law": "connect either succeeds or raises ScenarioError (no other exception)", "raised": other,
+                            "src_group": P[a], "dest_group": P[b], "src_attr": sa, "dest_attr": da, "time_shifted": ts, "weak": weak,
+                            "initial_data": init, "cache": cache})
+                continue
             want = (sa == "zz") or (da == "zz") or ((ts or weak) and da == "nt" and not init) or (weak and cl == 0)
             case = {"src_group": P[a], "dest_group": P[b], "src_attr": sa, "dest_attr": da, "time_shifted": ts, "weak": weak,
                     "initial_data": init, "cache": cache}
